@@ -338,7 +338,7 @@ Proof.
   exists (set_bit s1 0), w. split; [|split; [|split; [|split; [|split]]]].
   - unfold physconst_param. cbn [enc_param]. unfold is_required. cbn [pkind_of negb orb guard bind].
     unfold vget. rewrite Hl. cbn [is_none orb guard bind opt_or0].
-    cbn [enc_dop]. cbn [valid_phys]. rewrite Hpt. cbn [guard bind p2i enc_dct std_apply_mask std_used_mask].
+    cbn [enc_dop]. cbn [valid_phys]. rewrite Hpt. cbn [guard bind p2i valid_int dct_bt]. rewrite Hbt. cbn [guard bind enc_dct std_apply_mask std_used_mask].
     rewrite He. reflexivity.
   - destruct Hend1 as (A & B & C & D). repeat split; auto.
   - cbn. exact Hwarn.
@@ -411,7 +411,7 @@ Proof.
   exists (set_bit s2 0), (w1 ++ w2). split; [|split; [|split; [|split; [|split]]]].
   - unfold leading_param. cbn [enc_param]. unfold is_required. cbn [pkind_of]. rewrite Hl. cbn [negb orb guard bind].
     unfold vget. rewrite Hl. cbn [is_none negb guard bind opt_or0].
-    cbn [enc_dop]. cbn [valid_phys isinstance_bt guard bind p2i enc_dct]. rewrite He1. cbn [bind]. rewrite He2. reflexivity.
+    cbn [enc_dop]. cbn [valid_phys isinstance_bt guard bind p2i valid_int dct_bt enc_dct]. rewrite He1. cbn [bind]. rewrite He2. reflexivity.
   - destruct Hend2 as (A & B & C & D). repeat split; auto.
   - cbn. congruence.
   - cbn. congruence.
